@@ -43,9 +43,14 @@ Succ(e) ==
              ELSE <<[bufs EXCEPT ![e.b + 1] = SubSeq(b, 1, e.lo) \o ct \o SubSeq(b, e.hi + 1, Len(b))], vals>>
     [] e.op = "inspect" -> <<bufs, vals>>
 
+\* the three RFU bits of the MHDR are not part of the abstract frame (receivers ignore them) but the library
+\* keeps them for the MIC: buffers are compared with bits 4..2 of an ENCODED frame's first byte masked
+MaskRFU(b) == IF b = <<>> THEN b ELSE [b EXCEPT ![1] = @ - ((@ \div 4) % 8) * 4]
 OwnFails(e) ==
   LET s == Succ(e)
-      okB == e.bufs = s[1]
+      okB == IF e.op = "encode" /\ e.err = "" /\ Len(e.bufs) = Len(s[1])
+               THEN SubSeq(e.bufs, 1, Len(e.bufs) - 1) = SubSeq(s[1], 1, Len(s[1]) - 1) /\ MaskRFU(e.bufs[Len(e.bufs)]) = MaskRFU(s[1][Len(s[1])])
+               ELSE e.bufs = s[1]
       okV == e.vals = s[2]
   IN  CASE e.op = "overwrite" -> Tag(okB, "C10.state") \o Tag(okV, "C10.alias")
         [] e.op = "encode" -> Tag(e.err = "" => (Len(e.bufs) = Len(bufs) + 1 /\ e.len = Len(EncodeFrame(vals[e.v + 1])) /\ okB), "C10.state") \o Tag(okV, "C10.alias")
